@@ -5,7 +5,7 @@
    reference after any template is a parse error; an escaped opening marker between plain
    texts is literal text.  The grammar itself is tied to the code by the exhaustive comparison of
    parse trees over {$ { } [ \ : a} (length <= 6 quick, <= 8 thorough) through the Token hook. *)
-From RV Require Import Model.Parser Model.Interp Proofs.ParserFacts Proofs.ParserShape Proofs.ParserNested Proofs.ParserEscapes Proofs.ParserGen Proofs.ParserFull.
+From RV Require Import Model.Parser Model.Interp Proofs.ParserFacts Proofs.ParserShape Proofs.ParserNested Proofs.ParserEscapes Proofs.ParserGen Proofs.ParserFull Proofs.ParserAny.
 
 (** A string containing no reference marker is not parsed and renders unchanged, as a literal. *)
 Theorem C06_marker_free_string_untouched :
@@ -113,6 +113,68 @@ Theorem C06_strings_with_escapes_parse :
       Parsed (match coalesce (ftok u, map ftok us) with [t] => t | ts => TComb ts end).
 Proof. exact strings_with_escapes_parse. Qed.
 Eval cbv in "ASSUMPTIONS-OF C06_strings_with_escapes_parse"%string. Print Assumptions C06_strings_with_escapes_parse.
+
+(** Arbitrary text (Proofs/ParserAny.v).  Inside a reference a piece may also hold lone dollars,
+    opening braces and backslashes, wherever they cannot be read together with what follows as a
+    marker or an escape; the conditions are checked against the two ways a piece ends. *)
+Theorem C06_any_text_inside_a_reference_is_one_piece :
+  forall a l, xrun_ok (a :: l) "}" -> xrun_ok (a :: l) "${" -> lit_ok (xrun_src (a :: l)) (xrun_val (a :: l)).
+Proof. exact any_text_inside_a_reference_is_one_piece. Qed.
+Eval cbv in "ASSUMPTIONS-OF C06_any_text_inside_a_reference_is_one_piece"%string. Print Assumptions C06_any_text_inside_a_reference_is_one_piece.
+
+(** At the top level a text is any characters at all -- lone dollars, backslashes and braces
+    included, as in JSON-like templates -- none of whose positions begins ${, \${, \\${ or \$[,
+    ending where one of these begins or at the end of the string.  Every string spelled by such
+    texts, escaped markers and reference trees is accepted and parses to the decoded pieces. *)
+Theorem C06_strings_of_arbitrary_text_parse :
+  forall d u us,
+    d <= MAX_REF_NESTING -> hunits_ok d (u :: us) -> has_marker (hstr (u :: us)) = true ->
+    token_parse (hstr (u :: us)) =
+      Parsed (match coalesce (htok u, map htok us) with [t] => t | ts => TComb ts end).
+Proof. exact any_string_parses. Qed.
+Eval cbv in "ASSUMPTIONS-OF C06_strings_of_arbitrary_text_parse"%string. Print Assumptions C06_strings_of_arbitrary_text_parse.
+
+(** "an unclosed or empty reference is reported as an error rather than passed through or
+    mis-split": after any string of this language an empty reference (whatever follows it) and a
+    reference that is never closed make the whole string a parse error. *)
+Theorem C06_empty_reference_after_any_string_is_error :
+  forall d us rest,
+    d <= MAX_REF_NESTING -> hunits_ok_t d us ("${}" ++ rest) ->
+    token_parse (hstr us ++ "${}" ++ rest) = ParseError.
+Proof. exact empty_reference_after_any_string_is_error. Qed.
+Eval cbv in "ASSUMPTIONS-OF C06_empty_reference_after_any_string_is_error"%string. Print Assumptions C06_empty_reference_after_any_string_is_error.
+
+Theorem C06_unclosed_reference_after_any_string_is_error :
+  forall d us k,
+    d <= MAX_REF_NESTING -> plain k -> hunits_ok_t d us ("${" ++ k) ->
+    token_parse (hstr us ++ "${" ++ k) = ParseError.
+Proof. exact unclosed_reference_after_any_string_is_error. Qed.
+Eval cbv in "ASSUMPTIONS-OF C06_unclosed_reference_after_any_string_is_error"%string. Print Assumptions C06_unclosed_reference_after_any_string_is_error.
+
+(** non-vacuity: a text with lone specials and a complete reference, then an empty / unclosed one *)
+Example C06_errors_after_arbitrary_text_nonvacuous :
+  let us := [HText "{" "$ } "; HRef [GLit "x" "x"]; HText " " "\ "] in
+  hunits_ok_t 0 us ("${}" ++ "}") /\ hunits_ok_t 0 us ("${" ++ "abc") /\
+  token_parse (hstr us ++ "${}" ++ "}") = ParseError /\ token_parse (hstr us ++ "${" ++ "abc") = ParseError.
+Proof.
+  cbn zeta.
+  assert (Hx : gwf 1 (GRef [GLit "x" "x"])).
+  { cbn [gwf]. split; [discriminate | split; [exact I | constructor; [exact (plain_text_is_one_piece "x" "" (conj eq_refl I)) | constructor]]]. }
+  assert (H1 : hunits_ok_t 0 [HText "{" "$ } "; HRef [GLit "x" "x"]; HText " " "\ "] ("${}" ++ "}")).
+  { cbn [hunits_ok_t hok]. split; [repeat split; reflexivity|]. split; [exact Hx|]. split; [repeat split; reflexivity | exact I]. }
+  assert (H2 : hunits_ok_t 0 [HText "{" "$ } "; HRef [GLit "x" "x"]; HText " " "\ "] ("${" ++ "abc")).
+  { cbn [hunits_ok_t hok]. split; [repeat split; reflexivity|]. split; [exact Hx|]. split; [repeat split; reflexivity | exact I]. }
+  split; [exact H1|]. split; [exact H2|]. split.
+  - apply (empty_reference_after_any_string_is_error 0); [unfold MAX_REF_NESTING; lia | exact H1].
+  - apply (unclosed_reference_after_any_string_is_error 0); [unfold MAX_REF_NESTING; lia | repeat split | exact H2].
+Qed.
+
+(** non-vacuity: a JSON-like template with lone braces, dollars and backslashes at the top level and inside a reference path *)
+Example C06_arbitrary_text_nonvacuous :
+  hstr ex_units = ("{""a"": ${ab$c{" ++ bs ++ "d" ++ bs ++ "${" ++ bs ++ bs ++ "}, ""b"": ""$5 " ++ bs ++ " }{ " ++ bs ++ bs ++ "${x}}}")%string /\
+  token_parse (hstr ex_units) =
+    Parsed (TComb [TLit "{""a"": "; TRef [TLit ("ab$c{" ++ bs ++ "d${" ++ bs)]; TLit (", ""b"": ""$5 " ++ bs ++ " }{ " ++ bs); TRef [TLit "x"]; TLit "}}"]).
+Proof. split; [reflexivity | exact ex_units_parse]. Qed.
 
 (** non-vacuity:  a\${b${x\}y\\}\\${z}  *)
 Example C06_escapes_nonvacuous :
